@@ -76,7 +76,6 @@ package table
 //@   light
 //@   assert[internal-key-order] before call CompareKeys : arg0 == mi.small.key
 //@   assert[equal-advances-right] before call next : ret(CompareKeys#1) == 0 && arg0 == &mi.right
-//@   assert[right-exhausted-or-smaller-swaps] before call swapSmall#2 : called(next#1)
 //@   assert[forward-keeps-smaller] before call swapSmall#3 : mi.reverse && ret(CompareKeys#1) < 0
 //@   assert[reverse-keeps-bigger] before call swapSmall#4 : !mi.reverse && ret(CompareKeys#1) > 0
 //@   assert[invalid-small-swaps] before call swapSmall#1 : !called(CompareKeys#1)
